@@ -77,6 +77,14 @@ static void make_inputs (void)
 				} ;
 			} ;
 		} ;
+	/* double rounding probes: doubles a hair away from a rounding boundary (k + 1/2) / K -- closer than float precision, so a converter
+	   that rounds the scaled double through float lands on the boundary and then on the wrong side */
+	for (unsigned q = 0 ; q < sizeof (K) / sizeof (K [0]) ; q++)
+		for (int k = -75 ; k <= 75 ; k += (k > -4 && k < 4) ? 1 : 7)
+		{	double h = (k + 0.5) / K [q] ;
+			add_d (h * (1 + 1e-9)) ; add_d (h * (1 - 1e-9)) ; add_d (nextafter (h, 10.0)) ; add_d (nextafter (h, -10.0)) ;
+			add_f ((float) h) ; add_f (nextafterf ((float) h, 10.0f)) ; add_f (nextafterf ((float) h, -10.0f)) ; add_f ((float) (h * (1 + 1e-6))) ;
+			} ;
 	{ static const double b [] = { 0.0, -0.0, 1.0, -1.0, 0.99999994, -0.99999994, 1.0000001, 0.9999999999999999, -0.9999999999999999, 1.0000000000000002, 2.0, -2.0, 1.5, -1.5, 100.0, -100.0, 1e10, -1e10, 3e38, -3e38, 1e-10, -1e-10, 1e-40, 32767.0, 32767.5, 32768.0, -32768.5, -32769.0, 2147483647.0, 2147483648.0, -2147483648.0, -2147483649.0, 4294967296.0, 0.5, -0.5, 0.25, 2.5, 3.5, -2.5, -3.5, 8388607.5, 8388606.5, 127.5, 126.5, -127.5, -128.5 } ;
 	  for (unsigned k = 0 ; k < sizeof (b) / sizeof (b [0]) ; k++) { add_f ((float) b [k]) ; add_d (b [k]) ; } }
 	for (int k = 0 ; k < nr ; k++)
